@@ -384,6 +384,16 @@ func (s *SchedWorld) SeqSnapshotAndReplace(name string) {
 	s.Colls[name] = s.St.SetCollection(name, nil)
 }
 
+// MutSetCollection: the mutator replaces the handle registered under an existing
+// name (the contents stay; no new version is published).
+func (s *SchedWorld) MutSetCollection(name string) {
+	BeginOp("SetCollection")
+	c := s.St.SetCollection(name, nil)
+	s.mu.Lock()
+	s.Colls[name] = c
+	s.mu.Unlock()
+}
+
 // RSnapGet reads key through the setup snapshot: it must always see V0.
 func (s *SchedWorld) RSnapGet(name string, key []byte) {
 	BeginOp("SnapGet")
@@ -539,6 +549,12 @@ func (s *SchedWorld) CheckFlushes(rootsBefore int) {
 			names = append(names, n)
 		}
 		sort.Strings(names)
+		// the scenarios never remove a collection: every one of them is in every root record
+		for n := range s.Colls {
+			if _, ok := r.Colls[n]; !ok {
+				s.Fail("concurrent", "flush-collection-missing", "Flush %d (window [%d,%d]) wrote a root record without collection %s (it holds %v)", fi, fl.Start, fl.End, n, names)
+			}
+		}
 		// per collection: the set of versions matching the persisted content and current in the window
 		type span struct{ from, to int64 }
 		var cands [][]span
